@@ -152,9 +152,15 @@ fn h2f_lines(rng: &mut Rng, thorough: bool, out: &mut Out) {
     h2f_ns!(out, full, bls::Fq, 128, [1, 2]);
     h2f_ns!(out, full, bls::Fq2, 128, [1, 2]);
     let few = pairs(rng, false, 3 * x);
-    h2f_ns!(out, few, bls::Fq, 128, [0, 3, 4, 126, 127, 128, 129]);       // 127·64 = 8128 (ell 254), 128·64 = 8192 (ell 256: assert)
-    h2f_ns!(out, few, bls::Fq2, 128, [0, 3, 63, 64]);                      // 64·2·64 = 8192: assert
-    h2f_ns!(out, few, bls::Fq6, 128, [1, 2, 21, 22]);                      // m = 6; 22·6·64 = 8448: assert
+    // requests near the 255-block limit are expensive for the driver: in the quick tier three (dst, msg) pairs
+    // (DST lengths 1, 255, 300 → short, maximal, oversize), all boundary lengths in the thorough tier
+    let big: Vec<(Vec<u8>, Vec<u8>)> = if thorough { few.clone() } else { vec![few[1].clone(), few[3].clone(), few[5].clone()] };
+    h2f_ns!(out, few, bls::Fq, 128, [0, 3, 4]);
+    h2f_ns!(out, big, bls::Fq, 128, [126, 127, 128, 129]);                 // 127·64 = 8128 (ell 254), 128·64 = 8192 (ell 256: assert)
+    h2f_ns!(out, few, bls::Fq2, 128, [0, 3]);
+    h2f_ns!(out, big, bls::Fq2, 128, [63, 64]);                            // 64·2·64 = 8192: assert
+    h2f_ns!(out, few, bls::Fq6, 128, [1, 2]);
+    h2f_ns!(out, big, bls::Fq6, 128, [21, 22]);                            // m = 6; 22·6·64 = 8448: assert
     h2f_ns!(out, few, FDBls381Fq, 128, [1, 2]);                            // same modulus, zoo config
     h2f_ns!(out, few, FDSecp384r1, 128, [1, 2]);                           // 384 + 128 = 512 bits: L = 64 too
     h2f_ns!(out, few, bls::Fq, 124, [1, 2]);                               // 505 bits: L = 64
@@ -162,12 +168,16 @@ fn h2f_lines(rng: &mut Rng, thorough: bool, out: &mut Out) {
     // L ≠ 64: the expander is run with Z_pad of L bytes (as coded)
     h2f_ns!(out, few, bls::Fq, 132, [1, 2]);                               // L = 65
     h2f_ns!(out, few, bls::Fq, 123, [1, 2]);                               // L = 63
-    h2f_ns!(out, few, bls::Fq, 0, [1, 2, 170, 171]);                       // L = 48; 170·48 = 8160 = 255·32 (max), 171: assert
-    h2f_ns!(out, few, bls::Fr, 128, [1, 2, 170, 171]);                     // L = 48
-    h2f_ns!(out, few, bls::Fr, 1, [1, 2, 255, 256]);                       // L = 32; 255·32 = 8160, 256: assert
+    h2f_ns!(out, few, bls::Fq, 0, [1, 2]);
+    h2f_ns!(out, big, bls::Fq, 0, [170, 171]);                       // L = 48; 170·48 = 8160 = 255·32 (max), 171: assert
+    h2f_ns!(out, few, bls::Fr, 128, [1, 2]);
+    h2f_ns!(out, big, bls::Fr, 128, [170, 171]);                     // L = 48
+    h2f_ns!(out, few, bls::Fr, 1, [1, 2]);
+    h2f_ns!(out, big, bls::Fr, 1, [255, 256]);                       // L = 32; 255·32 = 8160, 256: assert
     h2f_ns!(out, few, ark_test_curves::secp256k1::Fq, 128, [1, 2]);        // L = 48
     h2f_ns!(out, few, ark_test_curves::mnt4_753::Fq, 128, [1, 2]);         // L = 111
-    h2f_ns!(out, few, FDP64m59, 0, [1, 4, 1020, 1021]);                    // L = 8; p = 2^64 − 59: bytes almost visible
+    h2f_ns!(out, few, FDP64m59, 0, [1, 4]);
+    h2f_ns!(out, big, FDP64m59, 0, [1020, 1021]);                    // L = 8; p = 2^64 − 59: bytes almost visible
     h2f_ns!(out, few, FDT127, 128, [1, 2]);                                // L = 17 (toy SWU suite)
     h2f_ns!(out, few, FDT101x, 128, [1, 2]);                               // L = 17 (toy Elligator suite)
     h2f_ns!(out, few, bls::Fq, 1667, [1, 2]);                              // L = 256: the whole Z_PAD
@@ -175,9 +185,10 @@ fn h2f_lines(rng: &mut Rng, thorough: bool, out: &mut Out) {
     h2f_ns!(out, few, bls::Fq, 2000, [1]);                                 // L = 298
     // L = 1 over F_251: the expander's bytes (mod 251) at every requested length across block boundaries
     let f1 = pairs(rng, false, 2 * x);
-    h2f_ns!(out, f1, FDT251, 0, [0, 1, 2, 31, 32, 33, 63, 64, 65, 95, 96, 97, 127, 128, 129, 255, 256, 1000]);
+    h2f_ns!(out, f1, FDT251, 0, [0, 1, 2, 31, 32, 33, 63, 64, 65, 95, 96, 97, 127, 128, 129, 255, 256]);
     let f2 = pairs(rng, false, 0);
-    h2f_ns!(out, f2[..3], FDT251, 0, [8159, 8160, 8161]);
+    h2f_ns!(out, f2[..3], FDT251, 0, [1000]);
+    h2f_ns!(out, f2[3..(if thorough { 6 } else { 5 })], FDT251, 0, [8159, 8160, 8161]);
     if thorough {
         let f3 = pairs(rng, true, 0);
         h2f_ns!(out, f3, FDT251, 0, [33, 8160]);
@@ -709,8 +720,8 @@ fn main() {
         rfc_hash_vectors::<bls::g1::Config>(&mut out, "g1", "BLS12381G1_XMD-SHA-256_SSWU_RO_.json");
         rfc_hash_vectors::<bls::g2::Config>(&mut out, "g2", "BLS12381G2_XMD-SHA-256_SSWU_RO_.json");
     }
-    if sel("g1") { sw_suite::<bls::g1::Config>(&mut rng, &mut out, "g1", "g1iso", if t { 3000 } else { 800 }, 20 * x); }
-    if sel("g2") { sw_suite::<bls::g2::Config>(&mut rng, &mut out, "g2", "g2iso", if t { 3000 } else { 600 }, 10 * x); }
+    if sel("g1") { sw_suite::<bls::g1::Config>(&mut rng, &mut out, "g1", "g1iso", if t { 3000 } else { 500 }, if t { 200 } else { 12 }); }
+    if sel("g2") { sw_suite::<bls::g2::Config>(&mut rng, &mut out, "g2", "g2iso", if t { 3000 } else { 300 }, if t { 100 } else { 8 }); }
     if sel("toy") {
         // exhaustive over all field elements
         for u in all_elems::<FDT127>() { swu_line::<ToySwu127>(&mut out, "t127", u); }
@@ -735,9 +746,9 @@ fn main() {
     if sel("jub") {
         let mut us = vec![JFq::zero()];
         if let Some(u) = (-<JubjubEll as Elligator2Config>::Z.inverse().unwrap()).sqrt() { us.push(u); us.push(-u); }
-        us.extend(edge_elems::<JFq>(&mut rng, if t { 3000 } else { 800 }));
+        us.extend(edge_elems::<JFq>(&mut rng, if t { 3000 } else { 500 }));
         for u in us { ell_line::<JubjubEll>(&mut out, "jub", u); }
-        for (d, msg) in pairs(&mut rng, false, 10 * x) { ehash_line::<JubjubEll>(&mut out, "jub", &d, &msg); }
+        for (d, msg) in pairs(&mut rng, false, if t { 100 } else { 3 }) { ehash_line::<JubjubEll>(&mut out, "jub", &d, &msg); }
     }
     out.flush();
 }
